@@ -24,17 +24,19 @@ def scen(driver, variants, quick, thorough, rule, level="exploration", **kw):
 PROPS = {
     "C01": scen("c01", ["default", "default", "default", "tiny"],
                 quick=dict(cases=1500, size=60), thorough=dict(cases=40000, size=90, budget_s=1500),
+                fuzz=dict(mode="model", rules="model/,C01/,output/,serve/", quick=dict(workers=2, runs=8000, max_len=402), thorough=dict(workers=3, runs=1000000, max_len=402)),
                 rule="rapidcheck-generated multi-peer histories of add/remove/change/fetch/unfetch/connect/disconnect over raw, local-socket and "
                      "WebSocket peers with random event-batch grouping; every step is judged against the reference model and the per-fetch replica "
                      "rebuilt from received notifications. Non-trivial = at least one fetch, at least two notifications and at least one quiescent "
                      "point where a replica with >=2 entries was compared; distinct = distinct scenario hash (per variant)."),
     "C03": scen("c03", ["default", "default", "tiny", "default"],
                 quick=dict(cases=1500, size=60), thorough=dict(cases=40000, size=90, budget_s=1500),
+                fuzz=dict(mode="model", rules="model/,C03/,output/,serve/", quick=dict(workers=2, runs=8000, max_len=402), thorough=dict(workers=3, runs=1000000, max_len=402)),
                 rule="rapidcheck-generated histories of set/call by several callers to several owners with owner replies (result, error, duplicate, "
                      "forged id, another owner's id), timer expiry through the virtual clock, connects/disconnects of callers, owners and bystanders, "
                      "in the shipped and in a 4-slot routing-table configuration; every step is judged against the reference model (routed message at "
                      "the owner only, payload equality, one final answer with the original id, unique routed ids). Non-trivial = at least one request "
-                     "was routed and concluded by reply, timeout or owner disconnect; distinct = scenario hash."),
+                     "was routed and concluded by reply, timeout or owner disconnect; in addition 2 (quick) / 3 (thorough) coverage-guided libFuzzer workers (fuzz/dfuzz.cpp, mode model: 5-byte records decoded into model-decidable operations with joins, same oracles, daemon in-process); in addition 2 (quick) / 3 (thorough) coverage-guided libFuzzer workers (fuzz/dfuzz.cpp, mode model: 5-byte records decoded into model-decidable operations with joins, same oracles, daemon in-process); distinct = scenario hash."),
     "C04": scen("c04", ["default", "default", "default", "tiny"],
                 quick=dict(cases=700, size=60), thorough=dict(cases=20000, size=90, budget_s=1500),
                 rule="rapidcheck-generated sequences of add/remove/change/set/call/get and single-defect malformed requests by several peers over an "
@@ -100,12 +102,13 @@ PROPS = {
                      "exit and hygiene oracles to byte-level generated sessions."),
     "C05": scen("c05", ["default"],
                 quick=dict(cases=1500, size=60), thorough=dict(cases=40000, size=100, budget_s=1500),
+                fuzz=dict(mode="model", rules="model/,C01/,C07/hygiene,output/,serve/", quick=dict(workers=2, runs=8000, max_len=402), thorough=dict(workers=3, runs=1000000, max_len=402)),
                 rule="rapidcheck-generated histories in which peers on raw, local-socket and WebSocket transports own elements, hold fetches and are caller or "
                      "owner of routed requests, and then end: EOF, hang-up or reset, alone or in the same event batch as other traffic, after a truncated "
                      "length prefix / message / WebSocket frame, or dropped by the daemon for invalid JSON, an over-long message or a WebSocket protocol "
                      "violation; the other peers' transcripts are compared with the reference model (remove events, shutdown errors, nothing else), the "
                      "descriptor-hygiene monitor and the sanitizers watch the released connection. Non-trivial = the ending peer owned an element with "
-                     "effects, or had a routed request in either role; distinct = scenario hash."),
+                     "effects, or had a routed request in either role; in addition 2 (quick) / 3 (thorough) coverage-guided libFuzzer workers (fuzz/dfuzz.cpp, mode model: 5-byte records decoded into model-decidable operations with joins, same oracles, daemon in-process); distinct = scenario hash."),
     "C11": scen("c11", ["default"], level="fault_enumeration",
                 quick=dict(cases=900, size=60), thorough=dict(cases=30000, size=100, budget_s=1500),
                 rule="rapidcheck-generated multi-peer histories (add/remove/change/fetch/set/call/reply/timeouts) in which a generated subset of peers is made "
